@@ -319,8 +319,14 @@ def run_c11(ctx):
             for d in batch[:3]:
                 ctx.sample({'op': 'pv/pi', 'cfg': cfg, 'input_hex': hx(d)})
         sample = list(itertools.islice(multiline_mutants(ctx, 200), 0, 20000))
-        ctx.violations += judge_sources(ctx, cfg, sample, ops=('pv', 'pi'), srcs=['s', 'b', 'r1'], what_prefix='c11-')
+        ctx.violations += judge_sources(ctx, cfg, sample, ops=('pv', 'pi'), srcs=['s', 'b', 'r1', 's+m', 'b+m', 'r1+m'], what_prefix='c11-')
         ctx.violations += judge_pos(ctx, cfg, 20000 if ctx.tier == 'quick' else 300000)
+    for cfg in [c for c in getattr(ctx, 'side_cfgs', []) if c not in ctx.cfgs]:
+        # feature-gated number scanners (arbitrary_precision: scan_*; float_roundtrip: parse_long_*): every error arm, positions vs the model and across sources
+        docs = list(dict.fromkeys(number_side_docs(ctx.rng)))
+        docs += [b'[' + d + b']' for d in docs[:200]] + [b'{"a": ' + d + b'}\n' for d in docs[:200]] + [b'[\n  ' + d + b'\n]' for d in docs[:200]]
+        ctx.violations += judge_c11(ctx, cfg, docs)
+        ctx.violations += judge_sources(ctx, cfg, docs, ops=('pv', 'pi'), srcs=['s', 'b', 'r1'], what_prefix='c11-')
 
 
 # ------------------------------------------------------------------ position bookkeeping of the readers (Model/Pos.v, Proofs/PosRefine.v)
@@ -512,7 +518,7 @@ def judge_sources(ctx, cfg, inputs, aux=None, ops=('pv', 'pi'), srcs=None, what_
         for src in srcs:
             if src == 'b':
                 continue
-            if src == 's':
+            if src.startswith('s'):
                 idxs = [i for i, d in enumerate(inputs) if gen.is_utf8(d)]
             else:
                 idxs = list(range(len(inputs)))
@@ -526,7 +532,7 @@ def judge_sources(ctx, cfg, inputs, aux=None, ops=('pv', 'pi'), srcs=None, what_
 def judge_c09(ctx, cfg, inputs, aux=None):
     if aux:
         return judge_sources(ctx, cfg, inputs, ops=(aux['op'],), srcs=['b', aux['src']])
-    v = judge_sources(ctx, cfg, inputs, ops=('pv', 'pi', 'pr'), srcs=(['s', 'b', 'r1', 'r3', 'rx5'] if ctx.tier == 'quick' else ['s'] + SRC_ALL))
+    v = judge_sources(ctx, cfg, inputs, ops=('pv', 'pi', 'pr'), srcs=(['s', 'b', 'r1', 'r3', 'rx5', 's+m', 'b+m', 'r3+m'] if ctx.tier == 'quick' else ['s', 's+m', 'b+m', 'r1+m'] + SRC_ALL))
     return v
 
 def judge_stream_sources(ctx, cfg, inputs):
@@ -1306,7 +1312,7 @@ register('C01', cfgs={'quick': ['def'], 'thorough': ['def', 'ap', 'fr', 'ud']}, 
 register('C02', cfgs={'quick': ['def', 'po'], 'thorough': ['def', 'po', 'fr', 'ap']}, side_cfgs=['ap', 'raw', 'fr'], run=run_c02, judge=judge_c02, extended=run_c02, trusted_base=PARSER_TB)
 register('C09', cfgs={'quick': ['def'], 'thorough': ['def', 'raw', 'ap', 'fr', 'po', 'ud']}, side_cfgs=['ap', 'fr'], run=run_c09, judge=judge_c09, extended=run_c09, trusted_base=PARSER_TB)
 register('C10', cfgs={'quick': ['def', 'raw'], 'thorough': ['def', 'raw', 'ap']}, side_cfgs=['ap', 'fr'], run=run_c10, judge=None, extended=run_c10, trusted_base=PARSER_TB)
-register('C11', cfgs={'quick': ['def'], 'thorough': ['def']}, run=run_c11, judge=judge_c11, extended=run_c11, trusted_base=PARSER_TB)
+register('C11', cfgs={'quick': ['def'], 'thorough': ['def']}, side_cfgs=['ap', 'fr'], run=run_c11, judge=judge_c11, extended=run_c11, trusted_base=PARSER_TB)
 register('C12', cfgs={'quick': ['def'], 'thorough': ['def']}, side_cfgs=['fr', 'ap'], run=run_c12, judge=judge_c12, extended=run_c12, trusted_base=PARSER_TB)
 register('C13', cfgs={'quick': ['def'], 'thorough': ['def']}, side_cfgs=['ap'], run=run_c13, judge=None, extended=run_c13, trusted_base=PARSER_TB)
 register('C14', cfgs={'quick': ['def'], 'thorough': ['def', 'ud']}, side_cfgs=['ud', 'fr'], run=run_c14, judge=judge_c14, extended=run_c14, trusted_base=PARSER_TB)
